@@ -56,7 +56,7 @@ MUST_REACH = [
 MUST_COUNT = ["exception_contract_evals", "lookups", "contains_calls", "delete_calls",
               "update_calls", "renderings", "to_string_pairs", "illegal_option_combinations",
               "missing_key_configurations"]
-MIN_NONTRIVIAL = {"quick": 800, "thorough": 8000}
+MIN_NONTRIVIAL = {"quick": 1500, "thorough": 40000}
 LEVEL_TEXT = ("Seeded exploration of contexts combined with exhaustive enumeration of key paths "
               "(length 0..4), notations, the UpdateContext option matrix and subcontext paths; "
               "every call of the real functions/elements is compared with a reference "
@@ -67,11 +67,11 @@ LEVEL_NOTE = ("Trusts the ~150-line reference model and jinja2's rendering of pl
               "{{a.b}} fields (str of the value, '' for undefined).")
 TECHNIQUE = "reference-model oracle + exception contract over enumerated paths/options x seeded contexts"
 
-NCTX = {"quick": 700, "thorough": 12000}        # addr cases (one context each)
-NFMT = {"quick": 400, "thorough": 8000}
+NCTX = {"quick": 700, "thorough": 40000}        # addr cases (one context each)
+NFMT = {"quick": 400, "thorough": 20000}
 NUPD_CTX = {"quick": 8, "thorough": 8}          # contexts per upd case
-NUPD_ROUNDS = {"quick": 1, "thorough": 10}      # upd cases per (sub, spec)
-NTOSTR = {"quick": 60, "thorough": 1200}
+NUPD_ROUNDS = {"quick": 1, "thorough": 30}      # upd cases per (sub, spec)
+NTOSTR = {"quick": 60, "thorough": 3000}
 
 SIMPLE_VALUES = [5, None, [1, 2], {"k": 1}, {"a": {"z": 1}, "b": 2}, 0.5, True, {}]
 SINGLE_FIELDS = [list(p) for p in itertools.product(R.KEYS, repeat=1)] + \
